@@ -818,7 +818,6 @@ def run(ctx):
         "moments of the arcsine / U-quadratic laws are not derived from their cdfs by integration (probed numerically)",
         "IEEE rounding: theorems are over exact reals; the float instance of the same definitions is what the correspondence executes",
         "NaN / integer-dtype inputs of array_discrete, callable or None means with process=True, invalid store names: outside the modelled domain",
-        "monotonicity of array_boxcox (only the inverse-pair identity is proved)",
     ]
     for f in ("array_to_uniform", "array_to_lognormal", "array_to_arcsin", "array_to_uquad", "_uniform_to_arcsin", "_uniform_to_uquad",
               "array_zinnharvey", "array_force_moments", "array_boxcox", "array_discrete", "BoxCox._normalize/_denormalize",
